@@ -13,6 +13,21 @@ enum HexMacroState {
     RepeatNumber(i32),
 }
 
+/// The terminal reports 32767 bytes of macro space, a macro can't be longer than that.
+const MAX_MACRO_LEN: usize = 0x7FFF;
+
+fn push_repeated(macro_rec: &mut String, repeat_rec: &str, repeat_number: i32) {
+    if repeat_rec.is_empty() {
+        return;
+    }
+    for _ in 0..repeat_number {
+        if macro_rec.len() + repeat_rec.len() > MAX_MACRO_LEN {
+            break;
+        }
+        macro_rec.push_str(repeat_rec);
+    }
+}
+
 impl Parser {
     pub(super) fn execute_dcs(&mut self, buf: &mut Buffer, caret: &Caret) -> EngineResult<CallbackAction> {
         if self.parse_string.starts_with("CTerm:Font:") {
@@ -115,7 +130,7 @@ impl Parser {
                 HexMacroState::FirstHex => {
                     if ch == ';' && read_repeat {
                         read_repeat = false;
-                        (0..repeat_number).for_each(|_| marco_rec.push_str(&repeat_rec));
+                        push_repeated(&mut marco_rec, &repeat_rec, repeat_number);
                         continue;
                     }
                     if ch == '!' {
@@ -157,7 +172,7 @@ impl Parser {
             }
         }
         if read_repeat {
-            (0..repeat_number).for_each(|_| marco_rec.push_str(&repeat_rec));
+            push_repeated(&mut marco_rec, &repeat_rec, repeat_number);
         }
 
         self.macros.insert(id, marco_rec);
